@@ -563,3 +563,61 @@ SEEDED["C14"] += [
     (WFS, "    n_subap = 0\n    for x in range(nx_subaps):\n        for y in range(nx_subaps):\n            if mask[x, y] == 1:\n                subaps_2d[:, :, x, y] = data[:, :, n_subap]\n                n_subap += 1\n",
      "    cells = numpy.flatnonzero(mask.ravel(order=\"K\") == 1)\n    subaps_2d.reshape(n_frames, 2, -1)[:, :, cells] = data\n", "M4"),
 ]
+
+# ---- round 5: defects seeded on top of the kept (independently produced) refactorings, so that every newly accepted form
+# ---- is also shown to be rejected when it is wrong
+SEEDED_ON.setdefault("C14", []).extend([
+    ("benign/C14-b7/patch.diff", WFS, "x_valid, y_valid = numpy.nonzero(", "y_valid, x_valid = numpy.nonzero(", "M4"),
+    ("benign/C14-b7/patch.diff", WFS, "mask[:, :nx_subaps] == 1)", "mask[:, :nx_subaps] != 0)", "M4"),
+    ("benign/C14-b7/patch.diff", WFS, "= data[:, :, :n_valid]", "= data[:, :, ::-1][:, :, :n_valid]", "M4"),
+    ("benign/C14-b7/patch.diff", WFS, "numpy.nonzero(mask[:, :nx_subaps] == 1)", "numpy.nonzero(mask[:, :nx_subaps].T == 1)", "M4"),
+])
+SEEDED_ON.setdefault("C01", []).extend([
+    ("benign/C02-b7/patch.diff", SC, "[cov_xy, cov_yy]])", "[cov_xy, cov_xx]])", "kind"),
+    ("benign/C03-b7/patch.diff", SC, "cov_mat_coord_x2 = subap_ni * 2 + 2 * self.n_subaps[wfs_i]", "cov_mat_coord_x2 = subap_ni * 2 + 2 * self.n_subaps[wfs_j]", "tile"),
+    ("benign/C01-b6/patch.diff", SC, "(rows_x, cols_x, cov_xx), (rows_y, cols_x, cov_xy),", "(rows_x, cols_x, cov_xx), (rows_y, cols_x, cov_yy),", "kind"),
+    ("benign/C01-b6/patch.diff", SC, "numpy.concatenate(([0], numpy.cumsum(self.n_subaps)))", "numpy.concatenate(([0], numpy.cumsum(self.n_subaps[::-1])))", "tile"),
+])
+SEEDED_ON.setdefault("C03", []).extend([
+    ("benign/C02-b7/patch.diff", SC, "[cov_xy, cov_yy]])", "[cov_xy.T, cov_yy]])", "O5"),
+])
+SEEDED_ON.setdefault("C05", []).extend([
+    ("benign/C05-b6/patch.diff", IPS, "kept_rows = self._scrn[:self.stencil_length - 1]", "kept_rows = self._scrn[:self.stencil_length]", "S1"),
+    ("benign/C05-b6/patch.diff", IPS, "numpy.concatenate((new_row, kept_rows), axis=0)", "numpy.concatenate((kept_rows, new_row), axis=0)", "S1"),
+    ("benign/C05-b5/patch.diff", IPS, "return new_row[numpy.newaxis, :]", "return new_row[:, numpy.newaxis]", "S1"),
+])
+SEEDED_ON.setdefault("C04", []).extend([
+    ("benign/C04-b5/patch.diff", IPS, "rows, cols = self.stencil_coords.T", "cols, rows = self.stencil_coords.T", "K"),
+    ("benign/C04-b7/patch.diff", IPS, "numpy.eye(len(", "2 * numpy.eye(len(", "K"),
+])
+SEEDED_ON.setdefault("C19", []).extend([
+    ("benign/C19-b5/patch.diff", SC, "sf_x[1:] = [_mean_squared_difference(phase, lag)", "sf_x[1:] = [_mean_squared_difference(phase, lag + 1)", "T1"),
+    ("benign/C19-b5/patch.diff", SC, "for lag in range(step, xm * step, step)]", "for lag in range(2 * step, (xm + 1) * step, step)]", "T"),
+    ("benign/C19-b7/patch.diff", TPS, "[:int(n_frames/2)]", "[1:int(n_frames/2) + 1]", "T5"),
+])
+SEEDED_ON.setdefault("C18", []).extend([
+    ("benign/C18-b5/patch.diff", PC, "slabs = [ix==i+1 for i in range(L)]", "slabs = [ix==i for i in range(L)]", "E1"),
+    ("benign/C18-b5/patch.diff", PC, "cn2_el = numpy.array([p[slab].sum() for slab in slabs], dtype=float)", "cn2_el = numpy.array([p[slab].sum() for slab in slabs], dtype=int)", "E1"),
+    ("benign/C18-b7/patch.diff", PC, "h_L, cn2_L = numpy.split(res.x, [L])", "cn2_L, h_L = numpy.split(res.x, [L])", "E4"),
+])
+SEEDED_ON.setdefault("C16", []).extend([
+    ("benign/C16-b7/patch.diff", PSF, "for i, outer in enumerate(discs):", "for i, outer in enumerate(discs, start=1):", "B4"),
+    ("benign/C16-b7/patch.diff", PSF, "    inner = next(discs)\n", "    inner = next(discs)\n    inner = next(discs)\n", "B4"),
+    ("benign/C16-b7/patch.diff", PSF, "        ring = outer - inner\n", "        ring = inner - outer\n", "B4"),
+])
+SEEDED_ON.setdefault("C12", []).extend([
+    ("benign/C12-b5/patch.diff", ZER, "for j, Z in enumerate(Zs, start=1):", "for j, Z in enumerate(Zs):", "Z5"),
+    ("benign/C12-b5/patch.diff", ZER, "Z /= numpy.ptp(Z)", "Z /= numpy.ptp(Z) + 1", "Z5"),
+    ("benign/C12-b7/patch.diff", ZER, "if m!=0 and j%2!=0:", "if m!=0 and j%2==0:", "Z3"),
+    ("benign/C12-b7/patch.diff", ZER, "for Z, coeff in zip(Zs, zCoeffs):", "for Z, coeff in zip(Zs, zCoeffs[::-1]):", "Z6"),
+])
+SEEDED_ON.setdefault("C07", []).extend([
+    ("benign/C07-b7/patch.diff", PS, "re, im = R.normal(size=(2, N, N))", "re, im = R.normal(size=(2, N, N))\n    im = re", "P"),
+])
+SEEDED_ON.setdefault("C13", []).extend([
+    ("benign/C08-b7/patch.diff", KL, "zip(*np.tril_indices(nr))", "zip(*np.tril_indices(nr - 1))", "A13"),
+    ("benign/C13-b7/patch.diff", KL, "ay, ax = np.meshgrid(c1d, c1d, indexing='ij')", "ax, ay = np.meshgrid(c1d, c1d, indexing='ij')", "A1"),
+])
+SEEDED_ON.setdefault("C15", []).extend([
+    ("benign/C15-b5/patch.diff", CEN, "frame_sum = lambda values: values.sum(-1).sum(-1)", "frame_sum = lambda values: values.sum()", "H"),
+])
